@@ -41,7 +41,8 @@ TECHNIQUE = ('runtime monitoring: reference-model monitor (own isotope substitut
              'formulas._isotope_substitution, sys.monitoring reach counters')
 LEVEL_TEXT = ('Random compounds and every molecule of the fasta tables are pushed through D2O_sld, D2O_match and the '
               'fasta.Molecule attributes and compared with a substitution the check performs itself; the tables are '
-              'swept completely, compounds, fractions and wavelengths are sampled.')
+              'swept completely, compounds, fractions and wavelengths are sampled.'
+              " Added in rounds 5-7: pure-solute points judged on the solute's own scale, refused keyword calls on the judged compound.")
 LEVEL_NOTE = ('Trusted: periodictable.neutron_sld for a given formula and density (judged by C03/C04), the mass reader '
               'pvmon/ref/masses.py, N_A from periodictable.constants, numpy.')
 SHARDS = {'quick': 4, 'thorough': 16}
